@@ -220,6 +220,65 @@ theorem identical_event_of_different_actions_as_is_counterexample :
     fateOf ⟨1, 1, 1, [5], 1, some 10, 1, true, false, true⟩ ⟨2, 2, 1, [5], 1, some 11, 1, true, false, true⟩ = Fate.cowin := by
   decide
 
+/-! ### The look-ups of the co-winner branch (`list.index`, `del`, `state.actions[...]`)
+
+  What guarantees that they succeed: the competing flow OWNS its action (`owns`: the uid is in `action_uids` — true for every
+  action the flow created itself with `start … as $r` / `await`), and both action uids are in `state.actions` (`scopeOf … ≠
+  none`).  Then the source as it is does exactly what the model (`cowinEffect`) does.  Each hypothesis is checked at run time
+  on every recorded call (`in_uids`, `tbl`); each one fails on real histories — the two findings below. -/
+
+theorem cowin_lookups_succeed (w h : HeadInfo) (t : ActTbl) (hown : h.owns = true)
+    (hin : ∀ a, h.act = some a → (scopeOf a t).isSome = true) (hwin : ∀ b, w.act = some b → (scopeOf b t).isSome = true) :
+    cowinStepAsIs w h t = .ok (cowinEffect w h t) := by
+  unfold cowinStepAsIs cowinEffect
+  cases hb : w.act with
+  | none => rfl
+  | some b =>
+    cases ha : h.act with
+    | none => rfl
+    | some a =>
+      have h1 := hin a ha
+      have h2 := hwin b hb
+      simp only
+      split
+      · rfl
+      · have e1 : (scopeOf b t).isNone = false := by
+          cases hs : scopeOf b t with
+          | none => rw [hs] at h2; cases h2
+          | some _ => rfl
+        have e2 : (scopeOf a t).isNone = false := by
+          cases hs : scopeOf a t with
+          | none => rw [hs] at h1; cases h1
+          | some _ => rfl
+        simp [hown, e1, e2]
+
+/-- non-vacuity: winner 2 (action 11) and co-winner 1 (owns action 10), both actions in the table -/
+example : cowinStepAsIs ⟨2, 2, 1, [3], 1, some 11, 1, true, false, true⟩ ⟨1, 1, 1, [3], 1, some 10, 1, true, false, true⟩ [(10, 1), (11, 1)]
+    = .ok [(11, 2)] := by decide
+
+/-- Finding `cowin-on-borrowed-action`: head 1 sends the Start event of action 10, which it holds by reference only
+    (`owns = false`: created by its parent flow), head 2 is picked with the identical Start event of its own action 11.
+    Head 1 co-wins; the source as it is raises `ValueError` in `action_uids.index(...)`; the repaired branch leaves the table
+    alone (the flow keeps its reference).  Finite witness, by evaluation. -/
+theorem cowin_on_borrowed_action_as_is_counterexample :
+    fateOf ⟨2, 2, 1, [5], 1, some 11, 1, true, false, true⟩ ⟨1, 1, 1, [5], 1, some 10, 1, true, false, false⟩ = Fate.cowin ∧
+    cowinStepAsIs ⟨2, 2, 1, [5], 1, some 11, 1, true, false, true⟩ ⟨1, 1, 1, [5], 1, some 10, 1, true, false, false⟩ [(10, 1), (11, 1)]
+      = .valueError ∧
+    cowinEffect ⟨2, 2, 1, [5], 1, some 11, 1, true, false, true⟩ ⟨1, 1, 1, [5], 1, some 10, 1, true, false, false⟩ [(10, 1), (11, 1)]
+      = [(10, 1), (11, 1)] := by decide
+
+/-- Finding `cowin-double-delete`: heads 1 and 3 share action 10 (co-winners of an earlier round), head 2 is picked with the
+    identical Start event of a new action 11.  Both sharers co-win; after the first one the source as it is has deleted
+    action 10, the second `del state.actions[10]` raises `KeyError`; the repaired branch (`pop`) drops it once and re-points
+    both (`flow_scope_count` 1 + 1 + 1).  Finite witness, by evaluation. -/
+theorem cowin_double_delete_as_is_counterexample :
+    cowinStepAsIs ⟨2, 2, 1, [5], 1, some 11, 1, true, false, true⟩ ⟨1, 1, 1, [5], 1, some 10, 1, true, false, true⟩ [(10, 2), (11, 1)]
+      = .ok [(11, 2)] ∧
+    cowinStepAsIs ⟨2, 2, 1, [5], 1, some 11, 1, true, false, true⟩ ⟨3, 3, 1, [5], 1, some 10, 1, true, false, true⟩ [(11, 2)]
+      = .keyError ∧
+    cowinEffect ⟨2, 2, 1, [5], 1, some 11, 1, true, false, true⟩ ⟨3, 3, 1, [5], 1, some 10, 1, true, false, true⟩ [(11, 2)] = [(11, 3)] := by
+  decide
+
 /-- A head that is not in the input (its match did not fit: score 0, never actionable) has no fate: the function
     touches only its input heads. -/
 theorem only_input_heads (one : Int) (hs : List HeadInfo) (cs : List Nat) (p : HeadInfo × Fate)
